@@ -308,6 +308,11 @@ func init() {
 			o.emit(c.line(), impl, pred)
 			return
 		}
+		// the host's own environment carries the conditional negotiation variables (before anything else launches plugins)
+		for _, proto := range []string{"netrpc", "grpc"} {
+			impl, pred := runAmbientNegotiationVars(proto)
+			o.emit("!C14.ambient-negotiation-vars proto="+proto, impl, pred)
+		}
 		r := newRng(seedFromEnv())
 		var all []*ioCase
 		for _, a := range []string{"dflt", "grpc", "both"} {
